@@ -26,6 +26,10 @@ def obfs4SettledBound : Nat := Framing.maxFrameLength - 1
 /-- obfs4 data phase, `receiveBuffer` + `receiveDecodedBuffer` at any time -/
 def obfs4DataBound : Nat := Obfs4.consumeReadSize + Framing.maxFrameLength - 1
 
+/-- obfs4 client data phase: the handshake may leave up to `obfs4HsBound` bytes of surplus in
+    `receiveBuffer`, to which the first network read is appended -/
+def obfs4ClientDataBound : Nat := obfs4HsBound + Obfs4.consumeReadSize
+
 /-- sha256.Size (the obfs3 magic is a full HMAC-SHA256 output) -/
 def sha256Size : Nat := 32
 
@@ -60,6 +64,7 @@ def socksConsumed : Nat := (2 + 255) + (2 + 255 + 1 + 255) + (4 + 1 + 255 + 2) +
 
 def table : List (String × Nat) :=
   [("obfs4-hs", obfs4HsBound), ("obfs4-settled", obfs4SettledBound), ("obfs4-data", obfs4DataBound),
+   ("obfs4-client-data", obfs4ClientDataBound),
    ("obfs3", obfs3Bound), ("obfs3-hs-consumed", obfs3HsConsumed), ("obfs2-hs-consumed", obfs2HsConsumed),
    ("ss-hs", ssHsBound), ("ss-data", ssDataBound), ("meek", meekBound), ("socks-consumed", socksConsumed)]
 
